@@ -4,8 +4,18 @@ From V Require Import Lib.Base.
 Open Scope string_scope.
 (* the validate* calls of HeaderValidator.ValidateHeader in source order: method, enclosing guard,
    whether a non-nil error sets result.Valid = false and is appended to result.Errors *)
+Definition checks_source : string := "ast".
 Definition go_checks : list (string * string * bool) :=
-  [("validateVRFProof", "", false)].
+  [("validateSlotOrdering", "", true);
+   ("validateBlockNumber", "", true);
+   ("validatePrevHash", "", true);
+   ("validateVRFProof", "", true);
+   ("validateLeadership", "out(validateVRFProof) != nil", true);
+   ("validateNonceVRFProof", "", true);
+   ("validateKESPeriod", "", true);
+   ("validateKESSignature", "", true);
+   ("validateOpCertSignature", "", true);
+   ("validateVRFKeyRegistration", "", true)].
 Definition go_verify_block_calls : list string :=
   ["vrf.MkSeedTPraos"; "vrf.MkInputVrf"; "vrf.Verify"; "extractOriginalBodyCbor"; "ExtractKesFields"; "VerifyKesComponents"; "validateDijkstraBlockBodyHash"; "common.ValidateBlockBodyHash"].
 Definition go_validate_opcert_calls : list string :=
